@@ -154,7 +154,7 @@ def normalise_impl(tag, it, vals, ls):
     return out
 
 
-def cached_build_and_run(cfg, modules, keep_src):
+def cached_build_and_run(cfg, modules, keep_src, hostile=False):
     """observations of the real expansions are cached (text only), keyed by the sources of /repo and of the probe crate"""
     import hashlib, gzip, pickle
     h = hashlib.sha256()
@@ -163,6 +163,7 @@ def cached_build_and_run(cfg, modules, keep_src):
     h.update(open(os.path.join(os.path.dirname(os.path.abspath(__file__)), 'probe.py'), 'rb').read())
     h.update(probe.PRELUDE.encode())
     h.update(probe.ZPRELUDE.encode())
+    h.update(b'hostile' if hostile else b'plain')
     for i, m in modules:
         h.update(m.encode())
     key = os.path.join(runner.CACHE, 'probe-' + h.hexdigest()[:32] + '.pkl.gz')
@@ -172,7 +173,7 @@ def cached_build_and_run(cfg, modules, keep_src):
                 return pickle.load(fh)
         except Exception:
             pass
-    res = probe.build_and_run(cfg, modules, runner.REPO, runner.SCRATCH_ROOT, keep_src)
+    res = probe.build_and_run(cfg, modules, runner.REPO, runner.SCRATCH_ROOT, keep_src, hostile)
     os.makedirs(runner.CACHE, exist_ok=True)
     import threading
     tmp = key + '.tmp%d.%d' % (os.getpid(), threading.get_ident())
@@ -185,8 +186,10 @@ def cached_build_and_run(cfg, modules, keep_src):
 TAGS = ['eq', 'cmp', 'pcmp', 'hash', 'clone', 'default', 'debug', 'debugp', 'zeroize', 'drop']
 
 
-def run(cfg, cases, seed=1, limit=300, only=None, keep_src=None, priority=()):
+def run(cfg, cases, seed=1, limit=300, only=None, keep_src=None, priority=(), hostile=False):
     t0 = time.time()
+    if hostile:
+        cases = [c for c in cases if probe.hostile_ok(c[1])]
     sel = select(cases, cfg, limit, seed, only, priority)
     rng = random.Random(seed)
     zero = CFGS[cfg]['zeroize']
@@ -197,17 +200,17 @@ def run(cfg, cases, seed=1, limit=300, only=None, keep_src=None, priority=()):
         dom = [1, 2] if zero else ([0, 1, 2] if ts & {'Eq', 'Ord'} else [0, 1, 2, 3])
         vals = probe.enum_values(it, dom, random.Random('%d/%s' % (seed, cid)))
         plan.append((cid, it, pit, vals))
-        modules.append((idx, probe.item_module(idx, cid, it, vals, zero)))
+        modules.append((idx, probe.item_module(idx, cid, it, vals, zero, hostile)))
         lines.append(probe.sx_observe(cid, cfg, pit, vals))
     stats = dict(cfg=cfg, selected=len(sel), values=sum(len(p[3]) for p in plan), compared=0, observations=0, compile_errors=0, aborted=None)
     if not sel:
         return stats, []
-    ok, out, err = cached_build_and_run(cfg, modules, keep_src)
+    ok, out, err = cached_build_and_run(cfg, modules, keep_src, hostile)
     problems = []
     if not ok:
         stats['compile_errors'] = err.count('error')
         # attribute errors to modules by line number
-        src = probe.PRELUDE + (probe.ZPRELUDE if zero else '')
+        src = probe.PRELUDE + (probe.ZPRELUDE if zero else '') + (probe.HOSTILE_PRELUDE if hostile else '')
         base = src.count('\n')
         starts, n = [], base
         for idx, m in modules:
@@ -229,7 +232,7 @@ def run(cfg, cases, seed=1, limit=300, only=None, keep_src=None, priority=()):
             raise runner.Infra('probe crate failed to build:\n' + err[-3000:])
         # rebuild without the offending items
         keep = [m for m in modules if m[0] not in bad]
-        ok, out, err2 = cached_build_and_run(cfg, keep, None)
+        ok, out, err2 = cached_build_and_run(cfg, keep, None, hostile)
         if not ok:
             raise runner.Infra('probe crate failed to build after removing failing items:\n' + err2[-3000:])
         err = err2
@@ -289,12 +292,113 @@ def run(cfg, cases, seed=1, limit=300, only=None, keep_src=None, priority=()):
     return stats, problems
 
 
+NOSTD_PRELUDE = r'''#![no_std]
+#![allow(warnings)]
+use core::{cmp::Ordering, fmt, hash::{Hash, Hasher}, marker::PhantomData};
+use derive_where::derive_where;
+pub trait Tr {}
+pub trait Tr2 {}
+#[derive(Clone, Copy, Debug, Default, PartialEq, Eq, PartialOrd, Ord, Hash)]
+pub struct X;
+impl Tr for X {}
+impl Tr2 for X {}
+pub struct P<TT: ?Sized>(pub u8, pub PhantomData<TT>);
+impl<TT: ?Sized> Clone for P<TT> { fn clone(&self) -> Self { P(self.0, PhantomData) } }
+impl<TT: ?Sized> Copy for P<TT> {}
+impl<TT: ?Sized> PartialEq for P<TT> { fn eq(&self, o: &Self) -> bool { self.0 == o.0 } }
+impl<TT: ?Sized> Eq for P<TT> {}
+impl<TT: ?Sized> PartialOrd for P<TT> { fn partial_cmp(&self, o: &Self) -> Option<Ordering> { Some(self.0.cmp(&o.0)) } }
+impl<TT: ?Sized> Ord for P<TT> { fn cmp(&self, o: &Self) -> Ordering { self.0.cmp(&o.0) } }
+impl<TT: ?Sized> Hash for P<TT> { fn hash<H: Hasher>(&self, s: &mut H) { s.write_u8(self.0) } }
+impl<TT: ?Sized> Default for P<TT> { fn default() -> Self { P(0, PhantomData) } }
+impl<TT: ?Sized> fmt::Debug for P<TT> { fn fmt(&self, f: &mut fmt::Formatter<'_>) -> fmt::Result { f.write_str("p") } }
+'''
+NOSTD_ZPRELUDE = r'''
+impl zeroize::Zeroize for X { fn zeroize(&mut self) {} }
+pub struct Z<TT: ?Sized>(pub u8, pub PhantomData<TT>);
+impl<TT: ?Sized> zeroize::Zeroize for Z<TT> { fn zeroize(&mut self) { self.0 = 0; } }
+impl<TT: ?Sized> Clone for Z<TT> { fn clone(&self) -> Self { Z(self.0, PhantomData) } }
+impl<TT: ?Sized> fmt::Debug for Z<TT> { fn fmt(&self, f: &mut fmt::Formatter<'_>) -> fmt::Result { f.write_str("z") } }
+'''
+
+
+def run_nostd(cfg, cases, seed=1, limit=300, priority=()):
+    """the same probe items inside a #![no_std] library crate: must type-check (C14)"""
+    import hashlib, gzip, pickle, json, shutil, tempfile, threading
+    sel = select(cases, cfg, limit, seed, None, priority)
+    zero = CFGS[cfg]['zeroize']
+    src = NOSTD_PRELUDE + (NOSTD_ZPRELUDE if zero else '')
+    ranges, n = [], src.count('\n')
+    for idx, (cid, it0, pit) in enumerate(sel):
+        text = 'pub mod m%d {\nuse super::*;\n%s\n}' % (idx, item_txt(pit))
+        lines = text.count('\n') + 1
+        ranges.append((n + 1, n + lines, idx))
+        src += text + '\n'
+        n += lines
+    key = os.path.join(runner.CACHE, 'nostd-' + hashlib.sha256((runner.repo_hash() + cfg + src).encode()).hexdigest()[:32] + '.pkl.gz')
+    errs = None
+    if os.path.exists(key):
+        try:
+            with gzip.open(key, 'rb') as fh:
+                errs = pickle.load(fh)
+        except Exception:
+            errs = None
+    if errs is None:
+        scratch = tempfile.mkdtemp(prefix='dwnostd-', dir=runner.SCRATCH_ROOT)
+        try:
+            os.makedirs(os.path.join(scratch, 'src'))
+            feats = CFGS[cfg]['features']
+            dep = 'derive-where = { path = "%s"%s }' % (runner.REPO, (', features = ["%s"]' % feats) if feats else '')
+            deps = dep + ('\nzeroize = { version = "1", default-features = false }' if zero else '')
+            open(os.path.join(scratch, 'Cargo.toml'), 'w').write('[package]\nname = "nostdprobe"\nversion = "0.0.0"\nedition = "2021"\n[workspace]\n[dependencies]\n%s\n' % deps)
+            shutil.copy(runner.lockfile(), os.path.join(scratch, 'Cargo.lock'))
+            open(os.path.join(scratch, 'src', 'lib.rs'), 'w').write(src)
+            env = dict(os.environ)
+            env.update(CARGO_TARGET_DIR=os.path.join(scratch, 'target'), CARGO_NET_OFFLINE='true')
+            cmd = ['cargo'] + (['+nightly'] if cfg == 'nightly' else []) + ['check', '--offline', '-q', '--message-format=json']
+            p = subprocess.run(cmd, cwd=scratch, env=env, stdout=subprocess.PIPE, stderr=subprocess.PIPE, text=True, timeout=3000)
+            errs = []
+            for line in p.stdout.split('\n'):
+                if line.startswith('{'):
+                    try:
+                        j = json.loads(line)
+                    except ValueError:
+                        continue
+                    if j.get('reason') == 'compiler-message' and j.get('target', {}).get('name') == 'nostdprobe' and j['message'].get('level') == 'error':
+                        sp = [x for x in j['message'].get('spans', []) if x.get('is_primary')] or j['message'].get('spans', [])
+                        errs.append(dict(line=sp[0]['line_start'] if sp else 0, code=(j['message'].get('code') or {}).get('code'), message=j['message']['message']))
+            if p.returncode != 0 and not errs:
+                raise runner.Infra('no_std probe crate could not be checked:\n' + p.stderr[-3000:])
+        finally:
+            shutil.rmtree(scratch, ignore_errors=True)
+        os.makedirs(runner.CACHE, exist_ok=True)
+        tmp = key + '.tmp%d.%d' % (os.getpid(), threading.get_ident())
+        with gzip.open(tmp, 'wb') as fh:
+            pickle.dump(errs, fh)
+        os.replace(tmp, key)
+    problems = []
+    by = {}
+    for e in errs:
+        for lo, hi, idx in ranges:
+            if lo <= e['line'] <= hi:
+                by.setdefault(idx, []).append(e)
+    if errs and not by:
+        raise runner.Infra('no_std probe crate failed outside the items: ' + repr(errs[:2]))
+    for idx, es in by.items():
+        cid, it0, pit = sel[idx]
+        problems.append(dict(kind='compile', scope='no_std', cfg=cfg, case=cid, src=item_txt(pit), errors=['[%s] %s' % (e['code'], e['message'][:200]) for e in es[:3]]))
+    return dict(cfg=cfg, items=len(sel), errors=len(errs)), problems
+
+
 if __name__ == '__main__':
     cfg = sys.argv[1] if len(sys.argv) > 1 else 'default'
     only = sys.argv[2] if len(sys.argv) > 2 else None
     limit = int(sys.argv[3]) if len(sys.argv) > 3 else 200
     cases = corpus.quick_corpus(1)
-    st, pr = run(cfg, cases, 1, limit, only, keep_src='/tmp/probe_main.rs')
+    if os.environ.get('NOSTD') == '1':
+        st, pr = run_nostd(cfg, cases, 1, limit)
+    else:
+        st, pr = run(cfg, cases, 1, limit, only, keep_src='/tmp/probe_main.rs', hostile=os.environ.get('HOSTILE') == '1')
     st.pop('_iobs', None)
     print(st)
     for p in pr[:15]:
